@@ -179,3 +179,30 @@ def run(ck, replay=None):
     ck.cov['exhaustive'] = not quick
     concurrent_traces(ck, quick)
     murex_level(ck, quick)
+
+
+def selftest(ck):
+    """binding demonstration: a corrupted job-table log must be rejected by JobsTrace.tla"""
+    import copy
+    import json
+    mxh = common.build_mxh()
+    tr = os.path.join(ck.scratch, 'st.ndjson')
+    common.run([mxh, 'jobs-drive', '-out', tr, '-seed', '5', '-n', '30'], timeout=600, check=True)
+    rows = common.read_ndjson(tr)
+
+    def validate(rs, label):
+        return common.tlc('JobsTrace', 'JobsTrace.cfg', os.path.join(ck.scratch, label), workers=1, timeout=900,
+                          files={'trace.ndjson': ''.join(json.dumps(x) + '\n' for x in rs)})
+    ok = not validate(rows, 's0').violated
+    common.log('selftest: pristine log -> %s' % ('accepted' if ok else 'REJECTED'))
+    i = [k for k, x in enumerate(rows) if x['ev'] == 'jobs.add'][5]
+    bad = copy.deepcopy(rows)
+    bad[i]['a'] += 1                       # the job ID the table handed out
+    r1 = validate(bad, 's1')
+    common.log('selftest: changed the job ID of an add event -> %s' % ('rejected' if r1.violated else 'ACCEPTED'))
+    i = [k for k, x in enumerate(rows) if x['ev'] == 'jobs.gc' and len(x['slots']) >= 2][0]
+    bad = copy.deepcopy(rows)
+    bad[i]['slots'] = bad[i]['slots'][:-1]  # a collection that drops a slot it must keep
+    r2 = validate(bad, 's2')
+    common.log('selftest: dropped the last slot of a collection result -> %s' % ('rejected' if r2.violated else 'ACCEPTED'))
+    return ok and bool(r1.violated) and bool(r2.violated)
